@@ -93,6 +93,9 @@ func checkCert(c *Config, tc *tls.Certificate, h hostCase, tag string) {
 // VerifC06Issue: every host spelling, via SNI or via the fallback host.
 func VerifC06Issue() {
 	c := newTestConfig()
+	// the configured lifetime of forged certificates, from the default to many years: whatever it
+	// is, a certificate must be valid at the moment it is issued for a handshake
+	c.SetValidity([]time.Duration{time.Hour, 20 * time.Hour, 400 * 24 * time.Hour, 3 * 365 * 24 * time.Hour, 10 * 365 * 24 * time.Hour}[vf.Choice("validity", 5)])
 	h := pickHost()
 	var tc *tls.Certificate
 	var err error
